@@ -462,6 +462,13 @@ def bytes_index(p: Path, b: Any, i: Any) -> Any:
     raise_py(IndexError, "index out of range")
 
 
+def _provs(b: Any) -> list:
+    pv = getattr(b, "prov", None)
+    if pv is None:
+        return []
+    return pv if isinstance(pv, list) else [pv]
+
+
 def int_to_bytes(p: Path, v: Any, length: Any, order: str, signed: bool = False) -> SBytes:
     if signed:
         raise Unsupported("to_bytes(signed=True)")
@@ -482,14 +489,20 @@ def int_to_bytes(p: Path, v: Any, length: Any, order: str, signed: bool = False)
         # v == from_bytes(b, o) with len(b) == n: its n-digit notation is b itself (same order) or b reversed
         b0: SBytes = pv[1]
         p.assumption_ids.add("A-struct")
+        provs = [("to_bytes", tv, order, n)]
+        other = "little" if order == "big" else "big"
+        for q in _provs(b0):
+            if q[0] == "to_bytes" and q[3] == n:
+                # b0 is the notation of q[1] in order q[2]; the result is b0 (same order) or its reversal (opposite order)
+                provs.append(("to_bytes", q[1], q[2] if pv[2] == order else ("little" if q[2] == "big" else "big"), n))
         if pv[2] == order:
-            return SBytes(n, b0.at, b0.name, prov=("to_bytes", tv, order, n))
-        return SBytes(n, lambda i, b0=b0: b0.at(n - 1 - i), b0.name + ".rev", prov=("to_bytes", tv, order, n))
+            return SBytes(n, b0.at, b0.name, prov=provs)
+        return SBytes(n, lambda i, b0=b0: b0.at(n - 1 - i), b0.name + ".rev", prov=provs)
     bts = [(tv / (1 << (8 * j))) % 256 if j else tv % 256 for j in range(n)]  # little-endian digits
     if order == "big":
         bts = bts[::-1]
     r = bytes_from_ints([SInt(t) for t in bts])
-    return SBytes(r.n, r.at, f"tobytes{n}", prov=("to_bytes", tv, order, n))
+    return SBytes(r.n, r.at, f"tobytes{n}", prov=[("to_bytes", tv, order, n)])
 
 
 _BYTEAT = z3.Function("byte_at", z3.IntSort(), z3.IntSort(), z3.IntSort())  # digit j (LE) of a non-negative int
@@ -530,10 +543,10 @@ def int_from_bytes(p: Path, b: Any, order: str, signed: bool = False) -> Any:
             raise DeadPath()
     if n == 0:
         return 0
-    pv = getattr(b, "prov", None)
-    if pv is not None and pv[0] == "to_bytes" and pv[3] == n and pv[2] == order:
-        p.assumption_ids.add("A-struct")
-        return mk_int(pv[1])  # from_bytes(to_bytes(v, n, o), o) == v  (v was range-checked when the bytes were made)
+    for pv in _provs(b):
+        if pv[0] == "to_bytes" and pv[3] == n and pv[2] == order:
+            p.assumption_ids.add("A-struct")
+            return mk_int(pv[1])  # from_bytes(to_bytes(v, n, o), o) == v  (v was range-checked when the bytes were made)
     t: Any = None
     for k in range(n):
         pos = k if order == "little" else n - 1 - k
